@@ -88,7 +88,7 @@ PROPS = {
         level_note="trusted: the SSA executor (sampled paths replayed natively), z3 (+ byte-domain fast path cross-checked against z3 every 50th verdict); bounds: literals <= 4 (quick) / 5 (thorough) bytes, structured literals <= 2 / 3 items; mapper selection (Map/Upper on selected token types) is checked in the parser-side run",
         runs=[dict(pkg=".", files=["root/zz_verif_map.go", "root/zz_verif_ref.go", "root/zz_verif_parse.go", "root/zz_verif_grammars.go", "root/zz_verif_gengrammar.go"], harness="^VH_C18_",
                    reach={"VH_C18_UnquoteFree": ["stdlib-accepts", "stdlib-rejects"], "VH_C18_UnquoteStructured": ["stdlib-accepts", "stdlib-rejects", "single-quoted"],
-                          "VH_C18_InvalidEscape": ["invalid", "valid"], "VH_C18_Select": ["mapped"]})],
+                          "VH_C18_InvalidEscape": ["invalid", "valid"], "VH_C18_Select": ["mapped"], "VH_C18_Chain": ["chained"]})],
         bounds=dict(quick="all byte strings of length 2..4 as token text; structured literals: quote in {\", `, '} x <= 2 items (first item any of 5 kinds, later items plain/escape-letter/\\xHH) with symbolic bytes, letters and digits",
                     thorough="byte strings up to 5; structured literals up to 3 items, later items also \\OOO"),
         outside="literals longer than the bound; strings.ToUpper on non-ASCII (Upper is checked for selection and position only)",
